@@ -702,7 +702,12 @@ impl Harness {
 
     /// Opens a throw-away database on `img` (hooks in passthrough mode), runs `f`, shuts it down.
     pub fn with_image_db<R>(&mut self, img: &Path, f: impl FnOnce(&mut Harness) -> R) -> Result<R, String> {
-        self.settle();
+        let gated = self.gate.lock().mode_gated;
+        if !gated {
+            self.settle();
+        }
+        // background index flushes of the original database must not report while hooks are ignored
+        self.gate.release_flush_jobs();
         self.gate.wait_readers_idle();
         self.gate.set_mode(Mode::Passthrough);
         self.passthrough = true;
